@@ -251,13 +251,13 @@ PROPS = {
         "assumes": ["solutions, state and programs are well-typed values (i64 words, 32-byte addresses, u8 bytes)", "termination of node programs is not claimed (unlimited gas)"],
     },
     "C18": {
-        "level_text": "Coq theorems: decode(encode) = id for mutation lists (any keys/values) and predicates (<=1000 nodes/edges, any edge_start incl. the leaf marker, trailing bytes ignored), injectivity, reported sizes = lengths; word/8-byte, 4-word/32-byte, 8-word/64-byte conversions inverse in both directions; hex upper/lower encode with case-insensitive decode, words<->hex, Display/FromStr of ContentAddress and Signature with wrong lengths rejected; node_edges returns exactly the documented sub-range (empty for leaves, None exactly for invalid ranges); the human-readable serde surface of all public types round-trips at the data-model level incl. the legacy field names `data` and `decision_variables`, any field order, unknown fields ignored; the binary (postcard) encoding of a solution decodes back. Correspondence against the crates incl. serde_json::to_value trees read back by the model and postcard/JSON round trips of the implementation. Partial: serde_json and postcard themselves are third-party.",
-        "properties": ["Properties/C18", "Properties/PredicateCodecThms", "Properties/TextCodecThms"],
+        "level_text": "Coq theorems: decode(encode) = id for mutation lists (any keys/values) and predicates (<=1000 nodes/edges, any edge_start incl. the leaf marker, trailing bytes ignored), injectivity, reported sizes = lengths; word/8-byte, 4-word/32-byte, 8-word/64-byte conversions inverse in both directions; hex upper/lower encode with case-insensitive decode, words<->hex, Display/FromStr of ContentAddress and Signature with wrong lengths rejected; node_edges returns exactly the documented sub-range (empty for leaves, None exactly for invalid ranges); the human-readable serde surface of all public types round-trips at the data-model level incl. the legacy field names `data` and `decision_variables`, any field order, unknown fields ignored; the binary (postcard) encoding of every public type (ContentAddress, PredicateAddress, Mutation, Solution, SolutionSet, Node, Predicate, Program, Contract, Signature, SignedContract) decodes back, is prefix free and injective, and everything decoded is well formed. Correspondence against the crates incl. serde_json::to_value trees read back by the model, the bytes of postcard::to_allocvec compared with the model's encoder and read back by the model's decoder, acceptance of truncated / extended postcard bytes, and postcard/JSON round trips of the implementation. Partial: serde_json and postcard themselves are third-party.",
+        "properties": ["Properties/C18", "Properties/PredicateCodecThms", "Properties/TextCodecThms", "Properties/PostcardThms"],
         "corr": ["Corr/RunTypes"],
-        "engines": [{"engine": "types", "quick": 1200, "thorough": 30000, "args": ["--kinds", "mut,pred,conv,text"]}],
+        "engines": [{"engine": "types", "quick": 1500, "thorough": 30000, "args": ["--kinds", "mut,pred,conv,text"]}],
         "rule": "mutation lists with keys/values of 0..3 words, their encodings and mutated encodings; predicates with 0..4 nodes, 0..5 edges, leaf markers "
                 "and out-of-range edge_start; words from the boundary pool; 32/64-byte arrays; hex of word lists in both cases; Display/FromStr of random "
-                "addresses and signatures in both cases; solution sets through serde_json (value tree, string, legacy names) and postcard",
+                "addresses and signatures in both cases; solution sets through serde_json (value tree, string, legacy names) and postcard; postcard bytes of random values of all ten public types, whole, truncated or followed by garbage",
         "assumes": ["serde_json / postcard / hex are third-party; their text/byte level behaviour is covered by correspondence only"],
     },
 }
